@@ -252,6 +252,51 @@ def run_case(case, ctx):
                 ok = _eq([ja], [jt], tol) or (ja != ja and jt != jt)
             ctx.check(ok, "auto_vs_explicit:" + name,
                       lambda: "%s %s: MRTS='auto' %r, MRTS=%r %r" % (fname, name, ja, thr, jt))
+    # 'auto' together with an `indices` selection: the statement pools "the reconciled
+    # trains" and does not say whether unselected trains count.  Either reading is accepted,
+    # but it has to be ONE reading for all results of the library: every entry point must
+    # agree with the explicit threshold pooled over all trains or over the selected ones,
+    # and no two entry points may decide differently
+    if len(sts) >= 3:
+        sel = [len(sts) - 1, 0]
+        thr_all = math.sqrt(O.default_thresh_sq(trs, T0, T1))
+        thr_sel = math.sqrt(O.default_thresh_sq([trs[k] for k in sel], T0, T1))
+        only_all, only_sel = [], []
+        for name, fn, extra, tol in (
+                ("isi_profile", pyspike.isi_profile, {}, 1e-9),
+                ("spike_profile", pyspike.spike_profile, rik, 1e-9),
+                ("spike_sync_profile", pyspike.spike_sync_profile, mtk, 0),
+                ("spike_train_order_profile", pyspike.spike_train_order_profile, mtk, 0),
+                ("isi_distance", pyspike.isi_distance, {}, 1e-9),
+                ("spike_distance", pyspike.spike_distance, rik, 1e-9),
+                ("spike_sync", pyspike.spike_sync, mtk, 1e-12),
+                ("spike_train_order", pyspike.spike_train_order, mtk, 1e-12),
+                ("spike_directionality_values", pyspike.spike_directionality_values, mtk, 0)):
+            def same(ra, rt):
+                ja = _arr(ra) if hasattr(ra, "x") else ra
+                jt = _arr(rt) if hasattr(rt, "x") else rt
+                if isinstance(ja, dict):
+                    return all(_eq(ja[q], jt[q], tol) for q in ja)
+                if isinstance(ja, list):
+                    return len(ja) == len(jt) and all(_eq(x, y, tol) for x, y in zip(ja, jt))
+                return _eq([ja], [jt], tol) or (ja != ja and jt != jt)
+            ra = ctx.call(name + ":auto+indices", fn, sts, indices=sel, MRTS="auto", **extra)
+            r1 = ctx.call(name + ":explicit+indices", fn, sts, indices=sel, MRTS=thr_all, **extra)
+            r2 = ctx.call(name + ":explicit+indices", fn, sts, indices=sel, MRTS=thr_sel, **extra)
+            a_, s_ = same(ra, r1), same(ra, r2)
+            ctx.check(a_ or s_, "auto_with_indices_matches_no_pooling:" + name,
+                      lambda: "%s(indices=%r, MRTS='auto') equals neither MRTS=%r (all trains "
+                              "pooled) nor MRTS=%r (selected trains pooled)"
+                      % (name, sel, thr_all, thr_sel))
+            if a_ and not s_:
+                only_all.append(name)
+            if s_ and not a_:
+                only_sel.append(name)
+        ctx.check(not (only_all and only_sel), "auto_with_indices_pooled_inconsistently",
+                  lambda: "indices=%r MRTS='auto': %r use the threshold pooled over all trains "
+                          "(%r) but %r the one pooled over the selected trains (%r)"
+                  % (sel, only_all, thr_all, only_sel, thr_sel))
+
     # matrices: 'auto' pools the whole list; MRTS monotone entry-wise
     sq = O.default_thresh_sq(trs, T0, T1)
     thr = math.sqrt(sq)
